@@ -1,6 +1,10 @@
 package main
 
 import (
+	"encoding/hex"
+	"encoding/json"
+	"unicode/utf8"
+
 	"github.com/pandatix/go-cvss/verifsim/rt"
 )
 
@@ -37,7 +41,7 @@ type CellSpec struct {
 	Ver   int    `json:"ver"`
 	Mode  string `json:"mode"`
 	Owner int    `json:"owner"`          // task index for priv cells
-	Init  string `json:"init,omitempty"` // "" zero value, else a vector to parse before the tasks start
+	Init  string `json:"init,omitempty"` // "" zero value, else a vector to parse before the tasks start (always valid UTF-8: generated from the tables)
 }
 
 // Operation kinds.
@@ -63,6 +67,59 @@ type Op struct {
 	S  string  `json:"s,omitempty"`
 	S2 string  `json:"s2,omitempty"`
 	F  float64 `json:"f,omitempty"`
+}
+
+type opJSON struct {
+	K  string  `json:"k"`
+	V  int     `json:"v,omitempty"`
+	C  int     `json:"c"`
+	D  int     `json:"d"`
+	S  BStr    `json:"s,omitempty"`
+	S2 BStr    `json:"s2,omitempty"`
+	F  float64 `json:"f,omitempty"`
+}
+
+func (o Op) MarshalJSON() ([]byte, error) {
+	return json.Marshal(opJSON{o.K, o.V, o.C, o.D, BStr(o.S), BStr(o.S2), o.F})
+}
+
+func (o *Op) UnmarshalJSON(data []byte) error {
+	var j opJSON
+	if err := json.Unmarshal(data, &j); err != nil {
+		return err
+	}
+	*o = Op{j.K, j.V, j.C, j.D, string(j.S), string(j.S2), j.F}
+	return nil
+}
+
+// BStr is an arbitrary byte string that survives JSON: valid UTF-8 is written
+// as a JSON string, anything else as {"x": "<hex>"} (encoding/json would
+// silently replace invalid bytes, and a replayed plan would differ).
+type BStr string
+
+func (b BStr) MarshalJSON() ([]byte, error) {
+	if utf8.ValidString(string(b)) {
+		return json.Marshal(string(b))
+	}
+	return json.Marshal(map[string]string{"x": hex.EncodeToString([]byte(b))})
+}
+
+func (b *BStr) UnmarshalJSON(data []byte) error {
+	var s string
+	if err := json.Unmarshal(data, &s); err == nil {
+		*b = BStr(s)
+		return nil
+	}
+	var m map[string]string
+	if err := json.Unmarshal(data, &m); err != nil {
+		return err
+	}
+	raw, err := hex.DecodeString(m["x"])
+	if err != nil {
+		return err
+	}
+	*b = BStr(raw)
+	return nil
 }
 
 func (p *Plan) simConfig(trace bool) rt.Config {
